@@ -122,7 +122,7 @@ TReply ==
           /\ ac' = fl.ac /\ intx' = IF E.alive THEN fl.intx ELSE FALSE
     /\ alive' = E.alive
     /\ reply' = IF last.k = "disconnect" THEN "none" ELSE IF E.ok THEN "ok" ELSE "err"
-    /\ phase' = "idle" /\ stale' = FALSE
+    /\ phase' = "idle" /\ stale' = last.mid         \* a reload during the command concerns the next one
     /\ UNCHANGED <<KS, User, cs, tx, ks, last, used, ended, nc, nf, nn>>
 
 TNsChange ==
@@ -131,6 +131,12 @@ TNsChange ==
     /\ last' = [NoLast EXCEPT !.k = "nschange", !.wasTx = InTx, !.pre = IF KS THEN ks ELSE tx]
     /\ used' = {} /\ ended' = {} /\ reply' = "none"
     /\ UNCHANGED <<KS, User, cs, ac, intx, tx, ks, alive, phase, nc, nf>>
+
+TNsChangeBusy ==                                      \* the namespace is reloaded while a command executes
+    /\ IsEv("nschange") /\ phase = "busy"
+    /\ last' = [last EXCEPT !.mid = TRUE]
+    /\ nn' = nn + 1
+    /\ UNCHANGED <<KS, User, cs, ac, intx, tx, ks, alive, stale, phase, used, ended, reply, nc, nf>>
 
 TReset ==
     /\ Boundary
@@ -143,7 +149,7 @@ TReset ==
     /\ l' = l
     /\ tid' = Trace[l].t
 
-TraceNext == \/ (TStart \/ TCmd \/ TGet \/ TGetErr \/ TOp \/ TClose \/ TPut \/ TReply \/ TNsChange) /\ UNCHANGED tid
+TraceNext == \/ (TStart \/ TCmd \/ TGet \/ TGetErr \/ TOp \/ TClose \/ TPut \/ TReply \/ TNsChange \/ TNsChangeBusy) /\ UNCHANGED tid
              \/ TReset
 
 TraceSpec == TraceInit /\ tid = Trace[1].t /\ [][TraceNext]_tvars
